@@ -95,6 +95,7 @@ package server
 //@   ghostset connReads := old(connReads) + 1
 //@   ghostset lastReadN := n
 //@   ghostset lastReadBuf := p
+//@   ghostset dataReads := old(dataReads) + ite(n > 0 && (err == nil || errIs(err, os.ErrDeadlineExceeded)), int(1), int(0))
 
 //@ iface net.Conn.Write(p []byte) (n int, err error)
 //@   requires[C15] connWrites < asmCalls && p == lastAsmOut && !isnil(p)
@@ -105,6 +106,7 @@ package server
 //@   requires[C15] bytesRead == lastReadN && bytesRead > 0 && aliases(received, lastReadBuf, 0, lastReadN) && asmCalls == connWrites
 //@   modifies nothing
 //@   ghostset asmCalls := old(asmCalls) + ite(isnil(response), int(0), int(1))
+//@   ghostset asmInv := old(asmInv) + 1
 //@   ghostset lastAsmOut := response
 
 //@ iface server.RawReadTracer.Read(data []byte, n int, err error)
@@ -162,18 +164,20 @@ package server
 //@ func (c *connection) handle(ctx context.Context)
 //@   requires c != nil && ctx != nil && c.conn != nil && c.assembler != nil && c.onErrorFunc != nil && asmCalls == connWrites
 //@   safety[C15,C17]
-//@   modifies c.isBeingHandled, connReads, connWrites, asmCalls, lastAsmOut, lastReadN, lastReadBuf, errorCbs, faults
+//@   modifies c.isBeingHandled, connReads, connWrites, asmCalls, lastAsmOut, lastReadN, lastReadBuf, errorCbs, faults, dataReads, asmInv
 //@   ensures[C15] connWrites - old(connWrites) == asmCalls - old(asmCalls)
+//@   ensures[C15.everyread] asmInv - old(asmInv) == dataReads - old(dataReads)
 //@   ensures[C17] closes == old(closes)
 //@   loop 0
-//@     modifies received, c.isBeingHandled, connReads, connWrites, asmCalls, lastAsmOut, lastReadN, lastReadBuf, errorCbs, faults
+//@     modifies received, c.isBeingHandled, connReads, connWrites, asmCalls, lastAsmOut, lastReadN, lastReadBuf, errorCbs, faults, dataReads, asmInv
 //@     invariant[C15] asmCalls == connWrites
+//@     invariant[C15] asmInv - old(asmInv) == dataReads - old(dataReads)
 
 //@ func (*Server).serve$3(ctx context.Context, conn *connection)
 //@   requires s != nil && conn != nil && c != nil && ctx != nil && conn.conn != nil && conn.assembler != nil && conn.onErrorFunc != nil && asmCalls == connWrites && muState == 0
 //@   safety[C17]
 //@   structural[C17]
-//@   modifies conn.isBeingHandled, s.activeConnections, s.activeConnectionCount, connReads, connWrites, asmCalls, lastAsmOut, lastReadN, lastReadBuf, errorCbs, tracks, untracks, closes, closeCbs, faults, liveCount, atomicTrueLoads
+//@   modifies conn.isBeingHandled, s.activeConnections, s.activeConnectionCount, connReads, connWrites, asmCalls, lastAsmOut, lastReadN, lastReadBuf, errorCbs, tracks, untracks, closes, closeCbs, faults, liveCount, atomicTrueLoads, dataReads, asmInv
 //@   ensures[C17.once] closes == old(closes) + 1 && untracks == old(untracks) + 1 && tracks == old(tracks)
 //@   ensures[C17.once] s.OnCloseConnFunc != nil ==> closeCbs == old(closeCbs) + 1
 //@   ensures[C17.once] s.OnCloseConnFunc == nil ==> closeCbs == old(closeCbs)
